@@ -18,6 +18,7 @@ func init() {
 		Level: "exploration",
 		Rule: "bucket states reached by random arrival histories on the frozen clock (single and 2-3 rate sets); metamorphic twins: the same history on two instances, one additionally flooded with k in {1,10,1000} rejected requests (amount <= burst but unavailable, or > burst), then both drained one token at a time at the same instant (and after a further common advance): drain counts must be equal; " +
 			"a rejected request of amount <= burst is retried after exactly the advertised delay and must pass; an idle source must drain exactly min burst after burst*period/average; amount > burst must yield an error, not a delay; run on TokenBucketSet.Consume and on TokenLimiter.ServeHTTP (X-Retry-In); " +
+			"a quarter of the states are re-configured in place (RateSet.Add on the object in use) before the idle-refill and over-burst steps; concurrent floods alternate amounts and every rejection must advertise amount x token time; " +
 			"non-trivial = state in which the probe was really rejected (drain count < amount <= burst); distinct by (rates, history, k)",
 		Assumptions: []string{"frozen library clock (hook)", "twin comparison at a single instant so that legitimate sub-token refill effects cancel"},
 		Parts: []Part{
@@ -328,11 +329,21 @@ func c13Set(c *Ctx) {
 	})
 }
 
+var c13HTTPSeq int
+
 func c13HTTP(c *Ctx) {
 	c13Run(c, "http", func(rs []rateSpec) c13Bucket {
 		n := new(int)
 		set := mkRateSet(rs)
-		tl, err := ratelimit.New(http.HandlerFunc(func(http.ResponseWriter, *http.Request) { *n++ }), hdrExtractor, set)
+		c13HTTPSeq++
+		var opts []ratelimit.TokenLimiterOption
+		def := set
+		if c13HTTPSeq%2 == 0 {
+			// the rates in force come from a rate extractor; the limiter's default set is much tighter and irrelevant
+			def = mkRateSet([]rateSpec{{time.Second, 1, 1}})
+			opts = append(opts, ratelimit.ExtractRates(ratelimit.RateExtractorFunc(func(*http.Request) (*ratelimit.RateSet, error) { return set, nil })))
+		}
+		tl, err := ratelimit.New(http.HandlerFunc(func(http.ResponseWriter, *http.Request) { *n++ }), hdrExtractor, def, opts...)
 		if err != nil {
 			panic(err)
 		}
